@@ -52,7 +52,7 @@ def floors(tier):
     return {'evaluations': 20000, 'distinct_nontrivial': 10000, 'comment_markers_checked': 20000,
             'formula_markers_checked': 20000, 'discard_markers_checked': 5000, 'histkeys:position': 15,
             'histkeys:math_env': 15, 'histkeys:option_cell': 24, 'k2_witness_checked': 1,
-            'formulas_with_escaped_active_characters': 500}
+            'formulas_with_escaped_active_characters': 500, 'histkeys:entry_point': 3, 'hist:entry_point:latex2text()': 1000}
 
 
 def setup(rec):
@@ -202,10 +202,26 @@ def squash(t):
     return re.sub(r'\s+', ' ', t)
 
 
-def evaluate(doc, markers, formulas, opts, rec):
+def convert_via(doc, opts, via):
+    """The class, or one of the deprecated module-level functions (keep_inline_math=True is math_mode='verbatim',
+    False is 'text'; they take no other option)."""
+    if via == 'class':
+        return LatexNodes2Text(**opts).latex_to_text(doc, tolerant_parsing=False)
+    import warnings
+    from pylatexenc import latex2text as L2T, latexwalker as LW
+    kim, kc = (opts['math_mode'] == 'verbatim'), bool(opts['keep_comments'])
+    with warnings.catch_warnings():
+        warnings.simplefilter('ignore')
+        if via == 'latex2text()':
+            return L2T.latex2text(doc, tolerant_parsing=False, keep_inline_math=kim, keep_comments=kc)
+        nodelist = LW.LatexWalker(doc, tolerant_parsing=False).get_latex_nodes()[0]
+        return L2T.latexnodes2text(nodelist, keep_inline_math=kim, keep_comments=kc)
+
+
+def evaluate(doc, markers, formulas, opts, rec, via='class'):
     """Returns list of (error, mech)."""
     try:
-        out = LatexNodes2Text(**opts).latex_to_text(doc, tolerant_parsing=False)
+        out = convert_via(doc, opts, via)
     except Exception as e:
         return [('latex_to_text raised %s: %s' % (type(e).__name__, str(e)[:150]), 'raises')]
     mm = opts['math_mode']
@@ -273,11 +289,14 @@ def evaluate(doc, markers, formulas, opts, rec):
 def check_case(case, rec):
     doc, markers, formulas, opts = case['doc'], case['markers'], case['formulas'], case['opts']
     rec.hist('option_cell', '%s/kc%d/ft%s' % (opts['math_mode'], int(opts['keep_comments']), opts.get('fill_text')))
-    for err, mech in evaluate(doc, markers, formulas, opts, rec):
+    via = case.get('via', 'class')
+    rec.hist('entry_point', via)
+    for err, mech in evaluate(doc, markers, formulas, opts, rec, via):
         key = None
         if case.get('k2') and mech.startswith('comment-lost'):
             key = 'K2'
-        rec.violation(case, '%s | document %r options %r' % (err, doc, opts), mech=key or mech)
+        rec.violation(case, '%s | document %r options %r%s' % (err, doc, opts, '' if via == 'class' else ' via ' + via),
+                      mech=key or mech)
 
 
 def classify(case, msg, mech):
@@ -321,6 +340,15 @@ def run_shard(desc, rec):
             if (i * 11 + ci) % 2003 == 0:
                 rec.sample({'document': doc, 'options': opts})
             check_case(case, rec)
+        # the deprecated module-level entry points: their two flags in all four combinations
+        if i % 3 == 0:
+            for kim in (False, True):
+                for kc in (False, True):
+                    opts = {'math_mode': 'verbatim' if kim else 'text', 'keep_comments': kc, 'strict_latex_spaces': False,
+                            'fill_text': None}
+                    rec.case()
+                    check_case({'doc': doc, 'markers': g.markers, 'formulas': g.formulas, 'opts': opts,
+                                'via': ('latex2text()', 'latexnodes2text()')[(i // 3 + kim + kc) % 2]}, rec)
 
 
 LEVEL_TEXT = ('Exploration with planted unique markers: thousands of generated documents carry a unique word in every comment, '
